@@ -8,6 +8,7 @@ Record C05_case := {
   c5_before : rlive;                   (* live tables before the revert *)
   c5_tab : nat; c5_key : Z; c5_tx : Z; (* target version: class (0 Article, 1 Tag), key, transaction id *)
   c5_tags : bool; c5_labels : bool; c5_article : bool;   (* named relationships *)
+  c5_paths : list (list Z);            (* all named paths, one list of relationship codes each (Model/Revert.v)   *)
   c5_deep : bool;                      (* a dotted path below one of them is named as well (tags.article,
                                           labels.articles, article.tags): other entities may be reverted too *)
   c5_after : rlive;                    (* live tables after revert + commit *)
@@ -40,6 +41,52 @@ Definition keys_of_refs (l : list vref) : list Z := map fst l.
 Definition same_keys (a b : list Z) : bool :=
   forallb (fun x => existsb (Z.eqb x) b) a && forallb (fun x => existsb (Z.eqb x) a) b.
 
+(* ---- dotted paths: the entities reached below the first level ----
+   `reach` lists the versions the call visits.  When no entity other than the root is reached twice and no reached
+   tag is one that a reached article's `tags` restoration removes (then the outcome does not depend on the order in
+   which SQLAlchemy hands out related objects), every reached entity must hold the values of the version it was
+   reached by, and a reached article whose path continues with `tags` must have exactly the tags that version
+   shows.  Otherwise only the first-level clauses above are judged. *)
+Definition rtabs_of (c : C05_case) : rtabs := mkrt (c5_art c) (c5_tag c) (c5_lab c) (c5_av c).
+Definition same_ent (a b : rnode) : bool := (rn_cls a =? rn_cls b)%nat && (rn_key a =? rn_key b).
+Definition tags_of (L : rlive) (k : Z) : list Z :=
+  map fst (filter (fun p => match snd p with [_; fk] => sql_eq fk (Some k) | _ => false end) (rl_tag L)).
+Definition version_tags (c : C05_case) (n : rnode) : list Z :=
+  match find_row (c5_art c) [rn_key n] (rn_tx n) with
+  | Some v => map key0 (rel_o2m 1 (c5_tag c) v)
+  | None => []
+  end.
+Definition restores_tags (n : rnode) : bool := (rn_cls n =? 0)%nat && in_heads (rn_heads n) R_TAGS.
+
+Definition determined (c : C05_case) (R : list rnode) : bool :=
+  forallb (fun n => (length (filter (same_ent n) R) =? 1)%nat) R &&
+  forallb (fun n => negb (restores_tags n) ||
+     forallb (fun t => existsb (Z.eqb t) (version_tags c n) ||
+                       negb (existsb (fun m => (rn_cls m =? 1)%nat && (rn_key m =? t)) R))
+             (tags_of (c5_before c) (rn_key n))) R.
+
+Definition node_ok (c : C05_case) (n : rnode) : bool :=
+  let after := c5_after c in
+  match rn_cls n with
+  | 0%nat => match find_row (c5_art c) [rn_key n] (rn_tx n), lget (rl_art after) (rn_key n) with
+             | Some v, Some [a; b; _] => list_eqb val_eqb [a; b] (vdat v)
+             | _, _ => false end &&
+             (negb (restores_tags n) || same_keys (tags_of after (rn_key n)) (version_tags c n))
+  | 1%nat => match find_row (c5_tag c) [rn_key n] (rn_tx n), lget (rl_tag after) (rn_key n) with
+             | Some v, Some vals => list_eqb val_eqb vals (vdat v)
+             | _, _ => false end
+  | _ => match find_row (c5_lab c) [rn_key n] (rn_tx n), lget (rl_lab after) (rn_key n) with
+         | Some v, Some vals => list_eqb val_eqb vals (vdat v)
+         | _, _ => false end
+  end.
+
+Definition nested_nodes (c : C05_case) (v : vrow) : list rnode :=
+  reach 6 (rtabs_of c) (c5_tab c, c5_key c) (c5_tab c) v (c5_paths c).
+
+Definition nested_ok (c : C05_case) (v : vrow) : bool :=
+  let R := nested_nodes c v in
+  negb (determined c R) || forallb (node_ok c) (tl R).
+
 Definition C05_prop (c : C05_case) : bool :=
   negb (c5_exc c) && C01_prop_switch (c5_main c) &&        (* the revert is versioned like any other change *)
   match target c with
@@ -67,7 +114,7 @@ Definition C05_prop (c : C05_case) : bool :=
              forallb (fun r => match find_row (c5_tag c) [fst r] (snd r), lget (rl_tag after) (fst r) with
                                | Some cv, Some vals => list_eqb val_eqb vals (vdat cv)
                                | _, _ => false end) want
-           else ltab_eqb (rl_tag after) (rl_tag before)) &&
+           else c5_deep c || ltab_eqb (rl_tag after) (rl_tag before)) &&
           (* named many-to-many: links reset to the set the version shows *)
           (if c5_labels c then
              same_keys (map snd (filter (fun p => fst p =? k) (rl_lnk after)))
@@ -75,7 +122,8 @@ Definition C05_prop (c : C05_case) : bool :=
              (c5_deep c ||
               set_eqb lnk_eq (filter (fun p => negb (fst p =? k)) (rl_lnk after))
                              (filter (fun p => negb (fst p =? k)) (rl_lnk before)))
-           else set_eqb lnk_eq (rl_lnk after) (rl_lnk before))
+           else c5_deep c || set_eqb lnk_eq (rl_lnk after) (rl_lnk before)) &&
+          nested_ok c v
       else
         if vop v =? OP_DEL then
           match lget (rl_tag after) k with None => true | Some _ => false end
@@ -84,7 +132,7 @@ Definition C05_prop (c : C05_case) : bool :=
           | Some vals => list_eqb val_eqb vals (vdat v)
           | None => false
           end &&
-          set_eqb lnk_eq (rl_lnk after) (rl_lnk before) &&
+          (c5_deep c || set_eqb lnk_eq (rl_lnk after) (rl_lnk before)) &&
           (if c5_article c then
              match spec_m2o (c5_art c) (fk_of 1 v) (c5_tx c) with
              | Some (pk0, ptx) =>
@@ -93,7 +141,8 @@ Definition C05_prop (c : C05_case) : bool :=
                  | _, _ => false end
              | None => ltab_eqb (rl_art after) (rl_art before)
              end
-           else ltab_eqb (rl_art after) (rl_art before))
+           else ltab_eqb (rl_art after) (rl_art before)) &&
+          nested_ok c v
   end.
 
 (* cases without anything to revert (the history produced no version) are not counted *)
